@@ -1234,6 +1234,12 @@ except ZeroDivisionError:
     pass
 
 samples.append({"amplitude_case": {k: a_meta[0][k] for k in ("cls", "ne", "ng", "a", "tx", "rx", "sel", "G")}})
+# ---- the glue model of the public functions (Model files added later, see manifest text) tied to the library on every run:
+#      inputs generated here, the library run on them, the model evaluated on the same inputs by vm_compute inside coqc
+import ties.tie_C08 as _tie_glue  # noqa: E402
+_tie_n = _tie_glue.run(chk, arim, rng, Q)
+chk.cov["glue_model_tie_comparisons"] = int(_tie_n or 0)
+
 chk.finish(
     evaluations=evaluations,
     distinct_nontrivial=len(nontrivial),
